@@ -1451,6 +1451,16 @@ func calleeName(cc *ssa.CallCommon) string {
 		return v.Name()
 	case *ssa.Builtin:
 		return v.Name()
+	case *ssa.MakeClosure:
+		// a call of a closure made in this function: named like the closure
+		if fn, ok := v.Fn.(*ssa.Function); ok {
+			for p := fn.Parent(); p != nil; p = p.Parent() {
+				if p.Pkg != nil {
+					return p.Pkg.Pkg.Name() + "." + fn.RelString(p.Pkg.Pkg)
+				}
+			}
+			return fn.Name()
+		}
 	}
 	return cc.Value.Name()
 }
